@@ -9,10 +9,14 @@ Decided:
              - put_internal: the clock may feed WalEntryData.timestamp only as the default of options.timestamp
                (inside unwrap_or_else/unwrap_or on that option);
              - Tantivy snapshot bytes and segment names are written into the file (known finding: byte identity).
-  TYPE-C23b  persisted types must not contain RandomState-ordered collections (HashMap/HashSet) unless the writer sorts:
-             reported as untriaged candidates (byte order of the memories-track JSON), never as verdicts.
+  TYPE-C23b  no type reachable from the persisted roots (Toc, WalEntryData, MemoriesTrack, LogicMesh, Frame, ...) that
+             derives serde's Serialize holds a HashMap/HashSet field, unless the field is #[serde(skip)] or has a custom
+             serialize_with: serde walks a hash collection in RandomState order, so the bytes differ from run to run.
+             (Derive lists and helper attributes are read from the struct's source text: macro expansion removes them
+             from the HIR.) Types with hand-written writers are accepted - their writer decides the order.
 Not decided: byte identity itself (runtime), the logical-state half of the property."""
-from . import lib
+import os, re
+from . import lib, extract
 from .facts import Place, op_place
 
 NONDET = ('SystemTime::now', 'Instant::now', 'Uuid::new_v4', 'rand::thread_rng', 'OsRng', 'rand::random', 'fastrand')
@@ -20,9 +24,46 @@ TANTIVY_SNAPSHOT = ('TantivyEngine::snapshot_segments',)
 ROOT_TYPES = ('Toc', 'WalEntryData', 'MemoriesTrack', 'LogicMesh', 'Frame', 'SegmentCatalog', 'IndexManifests')
 
 
+def struct_source_info(adt):
+    """derive list and per-field attribute text of a struct, read from its source (derive helper attributes such as
+    #[serde(skip)] are consumed by macro expansion and are not in the HIR the extractor sees)"""
+    out = dict(found=False, serialize=False, fields={})
+    path = os.path.join(extract.REPO, adt.get('file') or '')
+    try:
+        lines = open(path, encoding='utf-8', errors='replace').read().split('\n')
+    except OSError:
+        return out
+    ln = adt.get('line', 0) - 1
+    if not (0 <= ln < len(lines)) or adt['name'] not in lines[ln]:
+        return out
+    out['found'] = True
+    i = ln - 1
+    head = []
+    while i >= 0 and (lines[i].strip().startswith('#[') or lines[i].strip().startswith('///') or lines[i].strip().startswith('//') or lines[i].strip().endswith(')]') or lines[i].strip().endswith(',')):
+        head.append(lines[i])
+        i -= 1
+    out['serialize'] = any('derive' in h and re.search(r'\bSerialize\b', h) for h in head) or bool(re.search(r'derive\([^)]*\bSerialize\b', ' '.join(reversed(head))))
+    depth = 0
+    pend = []
+    for j in range(ln, min(len(lines), ln + 400)):
+        t = lines[j]
+        if j > ln and depth == 1:
+            st = t.strip()
+            m = re.match(r'(pub(\([^)]*\))?\s+)?([A-Za-z_][A-Za-z0-9_]*)\s*:', st)
+            if st.startswith('#[') or st.startswith('///'):
+                pend.append(st)
+            elif m:
+                out['fields'][m.group(3)] = ' '.join(pend)
+                pend = []
+        depth += t.count('{') - t.count('}')
+        if j > ln and depth <= 0:
+            break
+    return out
+
+
 def run(ctx):
     ctx.rule('FLOW-C23a', 'clock/uuid/rng/Tantivy-segment-id sources do not reach bytes written to the file (clock only as default of an absent caller timestamp)')
-    ctx.rule('TYPE-C23b', 'no RandomState-ordered collection inside persisted types (candidates only)')
+    ctx.rule('TYPE-C23b', 'no serde-serialised HashMap/HashSet field in types reachable from the persisted roots (skip / serialize_with excepted)')
     F = ctx.facts()
     put = ctx.need('FLOW-C23a', 'Memvid::put_internal')
     if put is not None:
@@ -92,17 +133,34 @@ def run(ctx):
     # ---- b
     seen = set()
     todo = [a for n in ROOT_TYPES for a in F.adts_by_name.get(n, [])]
-    cands = []
+    n_fields = 0
     while todo:
         a = todo.pop()
         if a['path'] in seen:
             continue
         seen.add(a['path'])
+        info = None
         for v in a['variants']:
             for fl in v['fields']:
                 ty = fl['ty']
                 if 'HashMap<' in ty or 'HashSet<' in ty:
-                    cands.append('%s.%s: %s' % (a['name'], fl['name'], ty.split('<')[0].split('::')[-1]))
+                    n_fields += 1
+                    if info is None:
+                        info = struct_source_info(a)
+                    cname = ty.split('<')[0].split('::')[-1]
+                    what = '%s.%s: %s' % (a['name'], fl['name'], cname)
+                    fa = info['fields'].get(fl['name'], '')
+                    if not info['found']:
+                        ctx.lost('TYPE-C23b', 'definition of %s not found in %s' % (a['name'], a.get('file')))
+                    elif not info['serialize']:
+                        ctx.ok('TYPE-C23b', None, '%s is not serialised by serde (no derive(Serialize) on %s: its writer decides the order)' % (what, a['name']))
+                    elif re.search(r'serde\([^)]*\bskip\b', fa) or re.search(r'serde\([^)]*\bskip_serializing\b(?!_if)', fa):
+                        ctx.ok('TYPE-C23b', None, '%s is #[serde(skip)]: not persisted' % what)
+                    elif 'serialize_with' in fa:
+                        ctx.ok('TYPE-C23b', None, '%s is written by a custom serializer (serialize_with)' % what)
+                    else:
+                        ctx.bad('TYPE-C23b', None, 'persisted type %s derives Serialize and holds a RandomState-ordered %s in field `%s`: the serialised order, and with it the file bytes, '
+                                'differ between two runs of the same calls' % (a['name'], cname, fl['name']), sink='%s.%s' % (a['name'], fl['name']), detail='hash-collection-serialised:%s.%s' % (a['name'], fl['name']))
                 for name, lst in F.adts_by_name.items():
                     if len(name) > 3 and ('::' + name) in ty or ty.endswith(name) or ('::' + name + '>') in ty:
                         for b in lst:
@@ -110,9 +168,6 @@ def run(ctx):
                                 todo.append(b)
     ctx.evaluations += len(seen)
     ctx.extra['persisted_types_scanned'] = len(seen)
-    for cnd in sorted(set(cands)):
-        ctx.candidate('TYPE-C23b', None, 'persisted type holds a RandomState-ordered collection (%s): its serialised byte order can differ between runs' % cnd, detail='hash-collection:' + cnd.split(':')[0])
-    if not cands:
+    ctx.floor('TYPE-C23b', len(seen), 20, 'types reachable from the persisted roots')
+    if n_fields == 0:
         ctx.ok('TYPE-C23b', None, 'no HashMap/HashSet field in the %d persisted types scanned' % len(seen))
-    else:
-        ctx.ok('TYPE-C23b', None, '%d persisted types scanned; %d hash-collection fields reported as candidates' % (len(seen), len(set(cands))))
